@@ -85,6 +85,11 @@ class Reductions(object):
                 self.st.assume(core.s_not(sym))
             elif kind == 'all' and chk.check(z3.Not(ls.t)) == z3.unsat:
                 self.st.assume(sym)
+            # instantiation at the generic index: all(P) ==> P(i),  P(i) ==> any(P)
+            if kind == 'all':
+                self.st.assume(core.s_or(core.s_not(sym), ls))
+            else:
+                self.st.assume(core.s_or(core.s_not(ls), sym))
         # monotonicity of sums / maxima: a summand that is >= 0 at every index gives a result >= 0
         if kind in ('sum', 'max') and isinstance(ls, S) and not ls.is_bool:
             chk = core.mk_solver(800)
